@@ -181,8 +181,34 @@ pub async fn reflink_async(cache: &Path, sri: &Integrity, to: &Path) -> Result<(
     reflink_unchecked(cache, sri, to)
 }
 
+// Whether both paths name the same file, e.g. when `to` was produced by an
+// earlier `hard_link`. Copying a file onto itself would truncate it.
+fn same_file(a: &Path, b: &Path) -> bool {
+    #[cfg(unix)]
+    {
+        use std::os::unix::fs::MetadataExt;
+        if let (Ok(a), Ok(b)) = (fs::metadata(a), fs::metadata(b)) {
+            return a.dev() == b.dev() && a.ino() == b.ino();
+        }
+    }
+    #[cfg(not(unix))]
+    let _ = (a, b);
+    false
+}
+
+fn already_there(cpath: &Path, to: &Path) -> Option<std::io::Result<u64>> {
+    if same_file(cpath, to) {
+        Some(fs::metadata(cpath).map(|meta| meta.len()))
+    } else {
+        None
+    }
+}
+
 pub fn copy_unchecked(cache: &Path, sri: &Integrity, to: &Path) -> Result<u64> {
     let cpath = path::content_path(cache, sri);
+    if let Some(len) = already_there(&cpath, to) {
+        return len.with_context(|| format!("Failed to stat {}", cpath.display()));
+    }
     std::fs::copy(cpath, to).with_context(|| {
         format!(
             "Failed to copy cache contents from {} to {}",
@@ -221,6 +247,9 @@ pub async fn copy_unchecked_async<'a>(
     to: &'a Path,
 ) -> Result<u64> {
     let cpath = path::content_path(cache, sri);
+    if let Some(len) = already_there(&cpath, to) {
+        return len.with_context(|| format!("Failed to stat {}", cpath.display()));
+    }
     crate::async_lib::copy(&cpath, to).await.with_context(|| {
         format!(
             "Failed to copy cache contents from {} to {}",
